@@ -288,7 +288,7 @@ class QpointsPhonon:
         if (
             isinstance(self._dynamical_matrix, DynamicalMatrixNAC)
             and self._nac_q_direction is not None
-            and (np.abs(q) < 1e-5).all()
+            and (np.abs(q - np.rint(q)) < 1e-5).all()
         ):
             self._dynamical_matrix.run(q, q_direction=self._nac_q_direction)
         else:
